@@ -1,6 +1,7 @@
 /-
 `HollowRhombicCode`, rank clause, part N: the sizes without hole (`Lx ≤ 2`, `Ly ≤ 3` or `Lz ≤ 3`: the
-test `_is_in_hole` is never true).  The selected triangles are the boxes of `RhombicPlanarCode`
+test `_is_in_hole` is never true) and the sizes whose hole is one layer thin in two directions (the
+test is true only at locations with two odd coordinates, which are neither qubits nor vertices).  The selected triangles are the boxes of `RhombicPlanarCode`
 (all of axis 3 and 2, the row `y = 2Ly−2` of axis 1, the last column and the upper triangles of
 axis 0) and `rankFamily` has `n − 1` members.
 -/
@@ -14,24 +15,32 @@ namespace Panqec.HollowRhombicCode
 open Panqec.Lat3Db Panqec.Rhombic
 open Panqec.Planar3DCode (inE inO inE2 inO1)
 
-/-- the size has no hole -/
-def NoHole (Lx Ly Lz : Nat) : Prop := Lx ≤ 2 ∨ Ly ≤ 3 ∨ Lz ≤ 3
+/-- the size has no hole, or a hole that is one layer thin in two directions: no vertex, no leg of a
+    triangle and no corner of a cube is ever in the hole (`_is_in_hole` is true only at locations with
+    two odd coordinates, or nowhere) -/
+def NoHole (Lx Ly Lz : Nat) : Prop :=
+  Lx ≤ 2 ∨ Ly ≤ 3 ∨ Lz ≤ 3 ∨ (Lx = 3 ∧ Ly = 4) ∨ (Lx = 3 ∧ Lz = 4) ∨ (Ly = 4 ∧ Lz = 4)
 
 instance (Lx Ly Lz : Nat) : Decidable (NoHole Lx Ly Lz) := by unfold NoHole; infer_instance
 
 section
 variable {Lx Ly Lz : Nat}
 
-theorem noHole_hole (h : NoHole Lx Ly Lz) (x y z : Int) : ¬ Hole Lx Ly Lz x y z := by
+/-- a location with at most one odd coordinate is not in the hole -/
+theorem noHole_hole (h : NoHole Lx Ly Lz) (x y z : Int)
+    (hp : (x % 2 = 0 ∧ y % 2 = 0) ∨ (x % 2 = 0 ∧ z % 2 = 0) ∨ (y % 2 = 0 ∧ z % 2 = 0)) :
+    ¬ Hole Lx Ly Lz x y z := by
   unfold NoHole at h; unfold Hole; omega
 
-theorem pt_noHole (h : NoHole Lx Ly Lz) {a x y z : Int} :
+theorem pt_noHole (h : NoHole Lx Ly Lz) {a x y z : Int} (hx : x % 2 = 0) (hy : y % 2 = 0)
+    (hz : z % 2 = 0) :
     PT Lx Ly Lz a x y z ↔ (1 ≤ y + sgnY a ∧ y + sgnY a ≤ 2 * (Ly : Int) - 3) := by
   unfold PT
   constructor
   · intro hp; exact hp.2.2.2.2
   · intro hp
-    exact ⟨noHole_hole h _ _ _, noHole_hole h _ _ _, noHole_hole h _ _ _, noHole_hole h _ _ _, hp⟩
+    exact ⟨noHole_hole h _ _ _ (Or.inl ⟨hx, hy⟩), noHole_hole h _ _ _ (Or.inr (Or.inr ⟨hy, hz⟩)),
+      noHole_hole h _ _ _ (Or.inr (Or.inl ⟨hx, hz⟩)), noHole_hole h _ _ _ (Or.inl ⟨hx, hy⟩), hp⟩
 
 /-- the upper triangles of axis 0 and the last column -/
 def B0N (Lx Ly Lz : Nat) (x y z : Int) : Prop :=
@@ -44,51 +53,88 @@ def B1N (Lx Ly Lz : Nat) (x y z : Int) : Prop :=
 
 theorem ax3N (h : NoHole Lx Ly Lz) (hx : 2 ≤ Lx) (hy : 2 ≤ Ly) (x y z : Int) :
     TS Lx Ly Lz 3 x y z ↔ B3 Lx Ly Lz x y z := by
-  unfold B3 TS
-  rw [pt_noHole h, sgnY_3]
-  unfold VertexLoc inE2 inE SelC InAp
+  unfold B3
   constructor
-  · rintro ⟨_, hv, hp, _⟩; omega
-  · intro hb; exact ⟨by decide, by omega, by omega, Or.inl rfl⟩
+  · rintro ⟨_, hv, hp, _⟩
+    have h5 := hp.2.2.2.2
+    rw [sgnY_3] at h5
+    unfold VertexLoc inE2 inE at hv
+    unfold InAp; omega
+  · intro hb
+    unfold InAp at hb
+    refine ⟨by decide, by unfold VertexLoc inE2 inE; omega, ?_, Or.inl rfl⟩
+    rw [pt_noHole h (by omega) (by omega) (by omega), sgnY_3]; omega
 
 theorem ax2N (h : NoHole Lx Ly Lz) (hx : 2 ≤ Lx) (hy : 2 ≤ Ly) (x y z : Int) :
     TS Lx Ly Lz 2 x y z ↔ B2 Lx Ly Lz x y z := by
-  unfold B2 TS
-  rw [pt_noHole h, sgnY_2]
-  unfold VertexLoc inE2 inE SelC InAp
+  unfold B2
   constructor
-  · rintro ⟨_, hv, hp, _⟩; omega
-  · intro hb; exact ⟨by decide, by omega, by omega, Or.inr (Or.inl rfl)⟩
+  · rintro ⟨_, hv, hp, _⟩
+    have h5 := hp.2.2.2.2
+    rw [sgnY_2] at h5
+    unfold VertexLoc inE2 inE at hv
+    unfold InAp; omega
+  · intro hb
+    unfold InAp at hb
+    refine ⟨by decide, by unfold VertexLoc inE2 inE; omega, ?_, Or.inr (Or.inl rfl)⟩
+    rw [pt_noHole h (by omega) (by omega) (by omega), sgnY_2]; omega
 
 theorem ax1N (h : NoHole Lx Ly Lz) (hx : 2 ≤ Lx) (hy : 2 ≤ Ly) (x y z : Int) :
     TS Lx Ly Lz 1 x y z ↔ B1N Lx Ly Lz x y z := by
-  unfold B1N TS SelC
-  simp only [pt_noHole h, sgnY_1, sgnY_2, sgnY_3]
-  unfold VertexLoc inE2 inE InAp
+  unfold B1N
   constructor
-  · rintro ⟨_, hv, hp, hc⟩; omega
+  · rintro ⟨_, hv, hp, hc⟩
+    have hv' := hv
+    unfold VertexLoc inE2 inE at hv'
+    have h5 := hp.2.2.2.2
+    rw [sgnY_1] at h5
+    unfold SelC at hc
+    rcases hc with hc | hc | ⟨_, hc | hc⟩ | ⟨hc, _⟩
+    · omega
+    · omega
+    · by_cases hy3 : y + 1 ≤ 2 * (Ly : Int) - 3
+      · exfalso; apply hc
+        rw [pt_noHole h (by omega) (by omega) (by omega), sgnY_3]; omega
+      · unfold InAp; omega
+    · exfalso; apply hc
+      rw [pt_noHole h (by omega) (by omega) (by omega), sgnY_2]; omega
+    · omega
   · intro hb
-    refine ⟨by decide, by omega, by omega, Or.inr (Or.inr (Or.inl ⟨trivial, Or.inl (by omega)⟩))⟩
+    unfold InAp at hb
+    refine ⟨by decide, by unfold VertexLoc inE2 inE; omega, ?_, ?_⟩
+    · rw [pt_noHole h (by omega) (by omega) (by omega), sgnY_1]; omega
+    · refine Or.inr (Or.inr (Or.inl ⟨rfl, Or.inl ?_⟩))
+      intro hp
+      have h5 := hp.2.2.2.2
+      rw [sgnY_3] at h5
+      omega
 
 theorem ax0N (h : NoHole Lx Ly Lz) (hx : 2 ≤ Lx) (hy : 2 ≤ Ly) (x y z : Int) :
     TS Lx Ly Lz 0 x y z ↔ B0N Lx Ly Lz x y z := by
-  unfold B0N TS SelC QC
-  simp only [pt_noHole h, sgnY_0]
-  unfold NoHole at h
-  unfold VertexLoc inE2 inE InAp
+  unfold B0N
   constructor
-  · rintro ⟨_, hv, hp, h3 | h3 | ⟨h3, _⟩ | ⟨_, hc | hc | hc | hc⟩⟩
+  · rintro ⟨_, hv, hp, hc⟩
+    have hv' := hv
+    unfold VertexLoc inE2 inE at hv'
+    have h5 := hp.2.2.2.2
+    rw [sgnY_0] at h5
+    unfold SelC at hc
+    rcases hc with hc | hc | ⟨hc, _⟩ | ⟨_, hc | hc | hc | hc⟩
     · omega
     · omega
     · omega
-    · left; omega
+    · left; unfold InAp; omega
     · by_cases hl : x = 2 * (Lx : Int) - 2
-      · left; omega
-      · right; omega
-    · omega
-    · omega
+      · left; unfold InAp; omega
+      · right; unfold InAp; omega
+    · exfalso; apply hc.2.2
+      rw [pt_noHole h (by omega) (by omega) (by omega), sgnY_0]; omega
+    · exfalso; unfold QC at hc; unfold NoHole at h; omega
   · intro hb
-    refine ⟨by decide, by omega, by omega, Or.inr (Or.inr (Or.inr ⟨trivial, by omega⟩))⟩
+    unfold InAp at hb
+    refine ⟨by decide, by unfold VertexLoc inE2 inE; omega, ?_, ?_⟩
+    · rw [pt_noHole h (by omega) (by omega) (by omega), sgnY_0]; omega
+    · exact Or.inr (Or.inr (Or.inr ⟨rfl, by omega⟩))
 
 /-- the boxes of the selected triangles -/
 def LN (Lx Ly Lz : Nat) : List Coord :=
@@ -166,17 +212,23 @@ theorem noHole_count (h : NoHole Lx Ly Lz) (hx : 2 ≤ Lx) (hy : 2 ≤ Ly) (hz :
   generalize (qubits Lx Ly Lz).length = N at *
   have z1 : (Lx - 4) * ((Ly - 5) * (Lz - 5)) = 0 := by
     unfold NoHole at h
-    rcases h with h | h | h
+    rcases h with h | h | h | h | h | h
     · have : Lx - 4 = 0 := by omega
       rw [this]; simp
     · have : Ly - 5 = 0 := by omega
       rw [this]; simp
     · have : Lz - 5 = 0 := by omega
       rw [this]; simp
+    · have : Lx - 4 = 0 := by omega
+      rw [this]; simp
+    · have : Lx - 4 = 0 := by omega
+      rw [this]; simp
+    · have : Ly - 5 = 0 := by omega
+      rw [this]; simp
   have z2 : (Lx - 2) * (Ly - 4) * (Lz - 4) + (Lx - 3) * (Ly - 3) * (Lz - 4) +
       (Lx - 3) * (Ly - 4) * (Lz - 3) = 0 := by
     unfold NoHole at h
-    rcases h with h | h | h
+    rcases h with h | h | h | h | h | h
     · have e1 : Lx - 2 = 0 := by omega
       have e2 : Lx - 3 = 0 := by omega
       rw [e1, e2]; simp
@@ -185,6 +237,15 @@ theorem noHole_count (h : NoHole Lx Ly Lz) (hx : 2 ≤ Lx) (hy : 2 ≤ Ly) (hz :
       rw [e1, e2]; simp
     · have e1 : Lz - 4 = 0 := by omega
       have e2 : Lz - 3 = 0 := by omega
+      rw [e1, e2]; simp
+    · have e1 : Ly - 4 = 0 := by omega
+      have e2 : Lx - 3 = 0 := by omega
+      rw [e1, e2]; simp
+    · have e1 : Lz - 4 = 0 := by omega
+      have e2 : Lx - 3 = 0 := by omega
+      rw [e1, e2]; simp
+    · have e1 : Ly - 4 = 0 := by omega
+      have e2 : Lz - 4 = 0 := by omega
       rw [e1, e2]; simp
   rw [z1] at h1
   rw [z2] at h3
